@@ -212,7 +212,9 @@ func (p *IdP) Authorize(location, sub string) (string, *AuthReq, error) {
 	}
 	q, err := url.ParseQuery(u.RawQuery)
 	if err != nil {
-		return "", nil, err
+		// a pair the strict parser cannot read (the endpoint's own parameters may hold ';' or a stray '%') does not
+		// make the rest of the request unreadable
+		q = url.Values(ParsePairs(u.RawQuery))
 	}
 	p.mu.Lock()
 	defer p.mu.Unlock()
